@@ -164,27 +164,28 @@ Proof.
   rewrite count_complete_app, count_notify_app. lia.
 Qed.
 
-Lemma fst_run_trace h : run init h = (fst (run init h), trace h).
-Proof. unfold trace. destruct (run init h); reflexivity. Qed.
+Lemma fst_run_trace b h : run (init_at b) h = (fst (run (init_at b) h), trace_at b h).
+Proof. unfold trace_at. destruct (run (init_at b) h); reflexivity. Qed.
 
 (* the call exists and has not completed when it is cancelled; afterwards nobody blocks on it *)
-Theorem cancel_silent_partial h1 h2 i :
-  (i < length (call_serials (trace h1)))%nat -> count_complete i (trace h1) = 0%nat -> no_block_on i h2 ->
-  let tr2 := snd (run (fst (run init (h1 ++ [ECancel i]))) h2) in
+Theorem cancel_silent_partial b h1 h2 i :
+  valid_base b ->
+  (i < length (call_serials (trace_at b h1)))%nat -> count_complete i (trace_at b h1) = 0%nat -> no_block_on i h2 ->
+  let tr2 := snd (run (fst (run (init_at b) (h1 ++ [ECancel i]))) h2) in
   count_complete i tr2 = 0%nat /\ count_notify i tr2 = 0%nat.
 Proof.
-  intros Hlen Hcc Hnb. simpl.
-  pose proof (rel_trace h1) as R. set (st0 := fst (run init h1)) in *.
+  intros Hb Hlen Hcc Hnb. simpl.
+  pose proof (rel_trace b h1 Hb) as R. set (st0 := fst (run (init_at b) h1)) in *.
   rewrite run_app, fst_run_trace. fold st0. simpl.
   destruct (step st0 (ECancel i)) as [st1 o1] eqn:E. simpl.
-  assert (Hok0 : calls_ok st0) by (apply (r_ok _ _ R)).
+  assert (Hok0 : calls_ok st0) by (apply (r_ok _ _ _ R)).
   destruct (step_good _ _ _ _ E Hok0) as [Hok1 _].
   apply cancelled_open_run; auto.
   destruct (fault st0 =? 0) eqn:Ef.
   2:{ left. unfold step in E. rewrite Ef in E. simpl in E. inversion E; subst. apply N.eqb_neq; auto. }
-  right. rewrite (r_serials _ _ R), map_length in Hlen.
+  right. rewrite (r_serials _ _ _ R), map_length in Hlen.
   destruct (nth_error (cores st0) i) as [k|] eqn:Hk; [|apply nth_error_None in Hk; lia].
-  pose proof (r_counts _ _ R i) as Hcnt. rewrite Hk in Hcnt. destruct Hcnt as [Hc1 _]. rewrite Hcc in Hc1.
+  pose proof (r_counts _ _ _ R i) as Hcnt. rewrite Hk in Hcnt. destruct Hcnt as [Hc1 _]. rewrite Hcc in Hc1.
   unfold step in E. rewrite Ef in E. simpl in E. unfold ev_cancel in E.
   unfold cores in Hk. rewrite nth_error_map in Hk. destruct (nth_error (calls st0) i) as [c|] eqn:Hc; [|discriminate].
   inversion E; subst. exists (k_cancel k). unfold cores; simpl.
